@@ -358,7 +358,61 @@ fn scenario_typed<T: Cm>(ctx: &mut Ctx) {
     }
 }
 
-fn scenario_case(ctx: &mut Ctx, _case: &Json) {
+/// Copies: `clone()` and `clone_from()` (between sketches of the same and of different shapes) give a sketch that
+/// behaves like its source from then on -- the table, the totals and the rows the next updates go to.
+fn scenario_clone_typed<T: Cm>(ctx: &mut Ctx) {
+    for ((h1, b1), (h2, b2)) in [((2u8, 16u32), (5u8, 16u32)), ((5, 16), (2, 16)), ((3, 7), (3, 7)), ((1, 64), (4, 5))] {
+        let seed = 9001u64;
+        let mut a: CountMinSketch<T> = CountMinSketch::with_seed(h1, b1, seed);
+        let mut ma = CmModel::new(h1, b1, seed);
+        let mut donor: CountMinSketch<T> = CountMinSketch::with_seed(h2, b2, seed);
+        let mut md = CmModel::new(h2, b2, seed);
+        for i in 0..6u64 {
+            let (item, bytes) = item_bytes(i, 23);
+            a.update(item);
+            ma.add(i, &bytes, 1);
+            let (item2, bytes2) = item_bytes(i + 3, 23);
+            donor.update_with_weight(item2, T::from_i(2));
+            md.add(i + 3, &bytes2, 2);
+        }
+        let mut t = Tail { exceed: 0, items: 0 };
+        check_cm(ctx, &a, &ma, 12, 23, &format!("scenario clone: receiver {}x{} before clone_from", h1, b1), &mut t);
+        a.clone_from(&donor);
+        let mut ma = md.clone();
+        let mut c = donor.clone();
+        let mut mc = md.clone();
+        for i in 0..5u64 {
+            let (item, bytes) = item_bytes(i * 2, 23);
+            a.update(item);
+            ma.add(i * 2, &bytes, 1);
+            c.update(item);
+            mc.add(i * 2, &bytes, 1);
+        }
+        check_cm(ctx, &a, &ma, 12, 23, &format!("scenario clone: {}x{} after clone_from a {}x{} sketch and 5 updates", h1, b1, h2, b2), &mut t);
+        check_cm(ctx, &c, &mc, 12, 23, &format!("scenario clone: clone() of a {}x{} sketch and 5 updates", h2, b2), &mut t);
+        // the copy is a full citizen: it merges into a fresh sketch of the source's shape
+        let mut f: CountMinSketch<T> = CountMinSketch::with_seed(h2, b2, seed);
+        let mut mf = CmModel::new(h2, b2, seed);
+        f.merge(&a);
+        mf.merge(&ma);
+        check_cm(ctx, &f, &mf, 12, 23, &format!("scenario clone: fresh {}x{} after merging the clone_from copy", h2, b2), &mut t);
+    }
+}
+
+fn scenario_case(ctx: &mut Ctx, case: &Json) {
+    if case.str("name") == Some("clone_and_clone_from") {
+        scenario_clone_typed::<i8>(ctx);
+        scenario_clone_typed::<u8>(ctx);
+        scenario_clone_typed::<i16>(ctx);
+        scenario_clone_typed::<u16>(ctx);
+        scenario_clone_typed::<i32>(ctx);
+        scenario_clone_typed::<u32>(ctx);
+        scenario_clone_typed::<i64>(ctx);
+        scenario_clone_typed::<u64>(ctx);
+        ctx.cover("scenario_clone_and_clone_from");
+        ctx.end_case(0x5ce9a411, true);
+        return;
+    }
     scenario_typed::<i8>(ctx);
     scenario_typed::<u8>(ctx);
     scenario_typed::<i16>(ctx);
@@ -406,6 +460,7 @@ pub fn run(ctx: &mut Ctx) {
     if ctx.shard == 0 {
         let mut t = HashMap::new();
         run_case_t(ctx, &Json::obj().set("lane", "scenario").set("name", "upper_bound_narrow_types"), &mut t);
+        run_case_t(ctx, &Json::obj().set("lane", "scenario").set("name", "clone_and_clone_from"), &mut t);
     }
     let n = ctx.tier_pick(200u64, 12_000);
     let mut rng = ctx.rng("cases");
